@@ -48,9 +48,9 @@ type c15API struct {
 type c15Scen struct {
 	Clients  []c15Client `json:"clients"`
 	APIs     []c15API    `json:"apis"`
-	Idle     int         `json:"idle_sockets"`  // connections that never send CONNECT
-	BadAuth  int         `json:"bad_auth"`      // connections whose CONNECT is rejected and which stay open
-	StopAt   int         `json:"stop_at_pct"`   // Stop when this share of the client operations is done (100 = after the workload)
+	Idle     int         `json:"idle_sockets"` // connections that never send CONNECT
+	BadAuth  int         `json:"bad_auth"`     // connections whose CONNECT is rejected and which stay open
+	StopAt   int         `json:"stop_at_pct"`  // Stop when this share of the client operations is done (100 = after the workload)
 	MaxProcs int         `json:"gomaxprocs"`
 }
 
